@@ -1194,6 +1194,11 @@ func (u *Unit) eqValues(a, b T, t types.Type) T {
 		if a.S == "nil_iface" {
 			return Eq(app(SInt, "ity", b), IntLit(0))
 		}
+		if a.S == b.S {
+			return True
+		}
+		// a nil interface is nil whatever its (unused) payload component is
+		return app(SBool, "ifaceEq", a, b)
 	case SSlice:
 		if b.S == "nil_slice" {
 			return Eq(app(SInt, "sarr", a), IntLit(0))
